@@ -20,7 +20,7 @@ pub fn drain<const N: usize, const P: u32, S: Src>(s: &mut S) {
     cov!(a == b, "drain of an empty range");
     cov!(a == 0 && b == len && len > 0, "drain of the full range");
     cov!(a > 0 && b < len && a < b, "drain with a hole in the middle");
-    cov!(a > 0 && a < b && b < len && rot + b < N && rot + len > N, "drain: hole in the middle, tail wraps around the array end");
+    cov!(a > 0 && a < b && b < len && rot + b < N && rot + len > N, "(N>=4) drain: hole in the middle, tail wraps around the array end");
     cov!(a < b && rot + a < N && rot + b > N, "drain: the drained range itself wraps");
     let (mut lo, mut hi) = (a, b);
     let mut held = Ids::new();
